@@ -12,7 +12,10 @@ implementation: the document they produce is compared with the document the Lean
 reported as drift (one of the two misreads the documentation).  The `fields` list of the rule after the pipeline is
 compared with the `fields` list of the Lean-rewritten document.
 Identity instances (a regular expression matching nothing, an empty mapping, a placeholder include list naming
-nothing, a condition scope that matches nothing) must leave every query unchanged."""
+nothing, a condition scope that matches nothing - also one that matches nothing because it is negated) must leave every
+query unchanged.  A condition scope is the condition group of the processing item as the pipeline YAML spells it
+(`field_name_conditions`, `field_name_cond_op`, `field_name_cond_not`); the Lean rewrite receives the group
+(`Rewrite.groupFields` / `groupItems`)."""
 from __future__ import annotations
 import copy, json, random, re
 from .common import Verdict, cps, outcome_of_exception
@@ -28,7 +31,10 @@ RULE = ("rules as in C01 (smaller pool) x single transformations with parameter 
         "parameters (mappings onto existing names, several prefixes, regexes, set_value of every plain type, templates, random include/exclude field lists)} x condition scopes (field include/exclude); distinct = distinct (rule, "
         "transformation); non-trivial = the transformation changes at least one atom or is an identity instance"
         "; 25% after the same backend object converted another rule; a fixed stream of hand-picked rules x every named transformation x scopes; placeholder rules x value/wildcard placeholders (also inside a nest)"
-        "; fixed rare-parameter pairs (added condition + in-place items after a prior rule, set_field + add_field after a prior rule, a prefix occurring twice in a field name, map_string to '' and [])")
+        "; fixed rare-parameter pairs (added condition + in-place items after a prior rule, set_field + add_field after a prior rule, a prefix occurring twice in a field name, map_string to '' and [])"
+        "; condition scopes = condition groups as written in pipeline YAML: one or two field name conditions, field_name_cond_op and/or, field_name_cond_not, and the negation "
+        "flags of the groups that have no conditions (detection_item_cond_not, rule_cond_not: no effect); named kinds also under negated scopes; one-to-many prefix mapping as a named kind; "
+        "a fixed stream of field names over a two-letter alphabet (prefix and remainder share characters) x prefix / suffix / prefix mappings with scalar and list targets")
 ASSUMPTIONS = c01.ASSUMPTIONS[:2] + [
     "the documented rewrites are the Lean functions of Spec/Rewrite.lean, interpreted by the Lean rule semantics; the Python rewriters of this harness are a cross-check (drift)",
     "Python re performs the substitutions of replace_string (the substitution function is a parameter of the rewrite, sent as a table over the plain forms of the strings of the rule)",
@@ -36,7 +42,7 @@ ASSUMPTIONS = c01.ASSUMPTIONS[:2] + [
 ]
 CFG = {"prec": ["not", "and", "or"], "parenthesize": False, "orAsIn": False, "andAsIn": False, "inAllowWild": False, "notAsNotEq": False,
        "sw": True, "ew": True, "ct": True, "wm": False, "cased": "all", "explicitNotExists": False, "nativeCidr": True}
-FIELDS = ["fieldA", "fieldB", "win.proc", "win.user"]
+FIELDS = ["fieldA", "fieldB", "win.proc", "win.user", "win.image", "proc.pid"]
 STRS = ["abc", "Abc*", "*x y*", "a?c", "val", "a\\*b", "C:\\\\path\\\\x", "foo"]
 
 
@@ -71,11 +77,28 @@ def gen_rule(rnd):
 TARGETS = ["m1", "m2", "x.y", "fieldB", "win.user", "t_3"]
 
 
+def rand_cond(rnd):
+    return {"type": rnd.choice(["include_fields", "exclude_fields"]), "fields": rnd.sample(FIELDS + ["nosuchfield"], rnd.choice([1, 2, 3]))}
+
+
 def rand_scope(rnd):
-    r = rnd.random()
-    if r < 0.5:
-        return None
-    return [{"type": rnd.choice(["include_fields", "exclude_fields"]), "fields": rnd.sample(FIELDS + ["nosuchfield"], rnd.choice([1, 2, 3]))}]
+    """-> the condition options of a pipeline item (keys next to `type`): a group of one or two field name conditions, its
+    linking and its negation; sometimes the negation flag of a group that has no conditions (without effect)"""
+    out = {}
+    if rnd.random() < 0.5:
+        conds = [rand_cond(rnd)]
+        if rnd.random() < 0.3:
+            conds.append(rand_cond(rnd))
+        out["field_name_conditions"] = conds
+        if len(conds) > 1 or rnd.random() < 0.15:
+            out["field_name_cond_op"] = rnd.choice(["and", "or"])
+        if rnd.random() < 0.4:
+            out["field_name_cond_not"] = rnd.choice([True, True, False])
+    if rnd.random() < 0.08:
+        out["detection_item_cond_not"] = True
+    if rnd.random() < 0.08:
+        out["rule_cond_not"] = True
+    return out
 
 
 def rand_item(rnd, depth=0):
@@ -95,9 +118,12 @@ def rand_item(rnd, depth=0):
     elif ty == "field_name_suffix":
         y["suffix"] = rnd.choice([".s", "_raw", "-1"])
     elif ty == "field_name_prefix_mapping":
-        y["mapping"] = {a: (rnd.choice(["w_", "x.", ""]) if rnd.random() < 0.7 else ["a.", "b."]) for a in rnd.sample(["win.", "field", "win.p", "zzz"], rnd.choice([1, 2]))}
+        y["mapping"] = {a: (rnd.choice(["w_", "x.", ""]) if rnd.random() < 0.6 else rnd.choice([["a.", "b."], ["w_", "v."], ["p.", ""]]))
+                        for a in rnd.sample(["win.", "field", "win.p", "zzz", "proc.", "pro"], rnd.choice([1, 2]))}
     elif ty == "drop_detection_item":
         y["field_name_conditions"] = [{"type": rnd.choice(["include_fields", "exclude_fields"]), "fields": rnd.sample(FIELDS, rnd.choice([1, 2]))}]
+        if rnd.random() < 0.3:
+            y["field_name_cond_not"] = True
         return y
     elif ty == "add_condition":
         y["conditions"] = rnd.choice([{"idx": "main"}, {"src": ["a", "b"], "n": 5}, {"idx": "$category-x", "other|contains": "$product"}, {"k|all": ["u", "v"]}])
@@ -131,19 +157,15 @@ def rand_item(rnd, depth=0):
         y["items"] = [rand_item(rnd, 1) for _ in range(rnd.choice([2, 2, 3]))]
         scoped = False
     if scoped:
-        sc = rand_scope(rnd)
-        if sc:
-            y["field_name_conditions"] = sc
+        y.update(rand_scope(rnd))
     return y
 
 
 def gen_transformation(rnd):
     if rnd.random() < 0.35:
         return {"kind": "rand", "scope": None, "yaml": rand_item(rnd)}
-    kind = rnd.choice(["map11", "map1n", "kw2field", "prefix", "suffix", "prefixmap", "drop", "addcond", "addcond_neg", "addcond_tpl",
-                       "replace", "replace_id", "mapstr", "mapstr_n", "mapstr_id", "case_lower", "case_upper", "setvalue", "convert_str",
-                       "map_empty", "ph_id", "scope_none", "nest", "add_field", "remove_field", "set_field"])
-    scope = rnd.choice([None, None, ("include", ["fieldA"]), ("exclude", ["fieldA", "win.proc"])])
+    kind = rnd.choice(NAMED_KINDS)
+    scope = rnd.choice([None, None, ("include", ["fieldA"]), ("exclude", ["fieldA", "win.proc"]), ("not_include", ["fieldA", "win.user"]), ("not_exclude", ["fieldB", "win.proc"])])
     return {"kind": kind, "scope": scope}
 
 
@@ -169,9 +191,20 @@ PH_RULES = [
     {"dets": {"sel": {"fieldA|expand": ["%p%", "%q%", "lit"]}}, "cond": "sel", "logsource": LS},
     {"dets": {"sel": {"fieldA|contains|all|expand": "%p%", "fieldB|expand|all": "a%p%"}}, "cond": "sel", "logsource": LS},   # 'all' with a single placeholder value
 ]
-NAMED_KINDS = ["map11", "map1n", "kw2field", "prefix", "suffix", "prefixmap", "drop", "addcond", "addcond_neg", "addcond_tpl",
+NAMED_KINDS = ["map11", "map1n", "kw2field", "prefix", "suffix", "prefixmap", "prefixmap_n", "drop", "addcond", "addcond_neg", "addcond_tpl",
                "replace", "replace_id", "mapstr", "mapstr_n", "mapstr_id", "case_lower", "case_upper", "setvalue", "convert_str",
-               "map_empty", "ph_id", "scope_none", "nest", "add_field", "remove_field", "set_field"]
+               "map_empty", "ph_id", "scope_none", "scope_none_not", "nest", "add_field", "remove_field", "set_field"]
+IDENTITY_KINDS = ("replace_id", "mapstr_id", "map_empty", "ph_id", "scope_none", "scope_none_not")
+SCOPED_KINDS = ("map11", "prefix", "suffix", "drop", "replace", "case_lower", "case_upper", "setvalue", "mapstr")
+RENAME_KINDS = ("map11", "map1n", "prefix", "suffix", "prefixmap", "prefixmap_n", "nest")
+# field names over a two-letter alphabet: the configured prefix / suffix shares characters with the rest of the name
+AB_NAMES = [["a", "aa", "a.a"], ["ab", "a.b", "aab"], ["ab.ab", "ab.ba", "ba.ab"]]
+AB_ITEMS = [{"type": "field_name_prefix_mapping", "mapping": {"a": "z_"}}, {"type": "field_name_prefix_mapping", "mapping": {"a": ["z_", "y."]}},
+            {"type": "field_name_prefix_mapping", "mapping": {"a.": "z_"}}, {"type": "field_name_prefix_mapping", "mapping": {"a.": ["z_", "y."]}},
+            {"type": "field_name_prefix_mapping", "mapping": {"ab": "z_"}}, {"type": "field_name_prefix_mapping", "mapping": {"ab": ["z_", "a"]}},
+            {"type": "field_name_prefix_mapping", "mapping": {"ab.": "z_", "a": "q"}}, {"type": "field_name_prefix_mapping", "mapping": {"ab.": ["ab.ab.", "b"]}},
+            {"type": "field_name_prefix", "prefix": "a."}, {"type": "field_name_suffix", "suffix": ".a"},
+            {"type": "field_name_mapping", "mapping": {"a": "aa", "aa": ["a", "ab"], "ab": "a.b"}}]
 
 
 def gen_cases(tier, seed, gen, effort):
@@ -183,7 +216,7 @@ def gen_cases(tier, seed, gen, effort):
             c["prior"] = True
     for r in FIXED_RULES:
         for k in NAMED_KINDS:
-            for scope in (None, ("include", ["fieldA"]), ("exclude", ["fieldA", "win.image"])):
+            for scope in (None, ("include", ["fieldA"]), ("exclude", ["fieldA", "win.image"]), ("not_include", ["fieldA"]), ("not_exclude", ["fieldA", "win.image"])):
                 cases.append({"rule": copy.deepcopy(r), "t": {"kind": k, "scope": scope}, "prior": k.startswith("addcond") or k == "nest"})
     # fixed pairs judged by the Lean rewrite alone (kind "rand"): rare parameter values and item sequences
     R = lambda dets, cond="sel", **kw: dict({"dets": dets, "cond": cond, "logsource": LS}, **kw)
@@ -207,6 +240,10 @@ def gen_cases(tier, seed, gen, effort):
     ]
     for r, y, prior in FIXED_PAIRS:
         cases.append({"rule": copy.deepcopy(r), "t": {"kind": "rand", "scope": None, "yaml": y}, "prior": prior})
+    for names in AB_NAMES:
+        r = R({"sel": {names[0]: "abc", names[1] + "|contains": "val"}, "flt": {"fieldA|fieldref": names[2], names[2]: 5}}, "sel and not flt", fields=[names[1], names[2], "other"])
+        for y in AB_ITEMS:
+            cases.append({"rule": copy.deepcopy(r), "t": {"kind": "rand", "scope": None, "yaml": copy.deepcopy(y)}})
     for r in PH_RULES:
         for k in ("ph_value", "ph_wild", "ph_value_nest"):
             if k == "ph_wild" and "|re" in repr(r["dets"]):
@@ -235,6 +272,7 @@ def t_yaml(t):
         "prefix": {"type": "field_name_prefix", "prefix": "p."},
         "suffix": {"type": "field_name_suffix", "suffix": ".s"},
         "prefixmap": {"type": "field_name_prefix_mapping", "mapping": {"win.": "w_"}},
+        "prefixmap_n": {"type": "field_name_prefix_mapping", "mapping": {"win.": ["w_", "v."]}},
         "drop": {"type": "drop_detection_item"},
         "addcond": {"type": "add_condition", "conditions": {"idx": "main", "src": ["a", "b"]}},
         "addcond_neg": {"type": "add_condition", "conditions": {"idx": "excluded"}, "negated": True},
@@ -257,29 +295,43 @@ def t_yaml(t):
         "remove_field": {"type": "remove_field", "field": ["fieldA", "nosuchfield", "fieldA"]},
         "set_field": {"type": "set_field", "fields": ["only.this"]},
         "scope_none": {"type": "field_name_suffix", "suffix": ".never", "field_name_conditions": [{"type": "include_fields", "fields": ["nosuchfield"]}]},
+        # a scope that matches nothing because it is negated: "not (every field except nosuchfield)"
+        "scope_none_not": {"type": "field_name_suffix", "suffix": ".never", "field_name_conditions": [{"type": "exclude_fields", "fields": ["nosuchfield"]}], "field_name_cond_not": True},
     }
     if k == "nest":
         return {"type": "nest", "items": [{"type": "field_name_mapping", "mapping": {"fieldA": "mappedA"}}, {"type": "field_name_suffix", "suffix": ".s"}]}
     out = copy.deepcopy(d[k])
     sc = t["scope"]
-    if sc and k in ("map11", "prefix", "suffix", "drop", "replace", "case_lower", "case_upper", "setvalue", "mapstr"):
-        out["field_name_conditions"] = [{"type": "include_fields" if sc[0] == "include" else "exclude_fields", "fields": sc[1]}]
+    if sc and k in SCOPED_KINDS:
+        out["field_name_conditions"] = [{"type": "include_fields" if sc[0].endswith("include") else "exclude_fields", "fields": sc[1]}]
+        if sc[0].startswith("not_"):
+            out["field_name_cond_not"] = True
     elif k == "drop":
         out["field_name_conditions"] = [{"type": "include_fields", "fields": ["fieldB"]}]
     return out
 
 
 # ------------------------------------------------------------------ documented rewrites on the rule document
-def in_scope(t, field):
+def scope_negated(t):
+    return bool(t["scope"]) and t["kind"] in SCOPED_KINDS and t["scope"][0].startswith("not_")
+
+
+def raw_scope(t, field):
+    """the field name condition of the item on a field name, before `field_name_cond_not`"""
     sc = t["scope"]
     k = t["kind"]
     if k == "drop" and not sc:
         return field == "fieldB"
-    if not sc or k not in ("map11", "prefix", "suffix", "drop", "replace", "case_lower", "case_upper", "setvalue", "mapstr"):
+    if not sc or k not in SCOPED_KINDS:
         return True
+    include = sc[0].endswith("include")
     if field is None:
-        return sc[0] == "exclude"
-    return (field in sc[1]) == (sc[0] == "include")
+        return not include
+    return (field in sc[1]) == include
+
+
+def in_scope(t, field):
+    return raw_scope(t, field) != scope_negated(t)
 
 
 def split_key(key):
@@ -365,7 +417,8 @@ def rewrite_item(t, key, val):
     ms = "".join("|" + m for m in mods)
     is_ref = "fieldref" in mods
     # a field name condition matches a detection item through its field *or* through a field it references
-    item_in = in_scope(t, field) or (is_ref and any(in_scope(t, v) for v in vals if isinstance(v, str)))
+    # … and the negation flag negates that result
+    item_in = (raw_scope(t, field) or (is_ref and any(raw_scope(t, v) for v in vals if isinstance(v, str)))) != scope_negated(t)
     if not item_in:
         return ("one", key, vals)
     if k == "drop":
@@ -398,10 +451,12 @@ def rewrite_item(t, key, val):
             return [f + ".s"]
         if k == "prefixmap":
             return ["w_" + f[4:]] if f.startswith("win.") else [f]
+        if k == "prefixmap_n":
+            return ["w_" + f[4:], "v." + f[4:]] if f.startswith("win.") else [f]
         if k == "nest":
             return [{"fieldA": "mappedA"}.get(f, f) + ".s"]
         return [f]
-    if k in ("map11", "map1n", "prefix", "suffix", "prefixmap", "nest"):
+    if k in RENAME_KINDS:
         if is_ref:
             newvals = []
             for v in vals:
@@ -429,7 +484,7 @@ def rewrite_fields(t, fields):
         return out
     if t["kind"] == "set_field":
         return ["only.this"]
-    if t["kind"] not in ("map11", "map1n", "prefix", "suffix", "prefixmap", "nest"):
+    if t["kind"] not in RENAME_KINDS:
         return list(fields)
     out = []
     for f in fields:
@@ -522,10 +577,12 @@ def det_json(d):
 
 
 def scope_desc(y):
+    """the condition group of the item's field name conditions, as `Driver.rwGroupOfJson` reads it"""
     fc = y.get("field_name_conditions")
     if not fc:
         return None
-    return {"mode": "include" if fc[0]["type"] == "include_fields" else "exclude", "fields": [cps(f) for f in fc[0]["fields"]]}
+    return {"conds": [{"mode": "include" if c["type"] == "include_fields" else "exclude", "fields": [cps(f) for f in c["fields"]]} for c in fc],
+            "anyOf": y.get("field_name_cond_op") == "or", "neg": bool(y.get("field_name_cond_not"))}
 
 
 def aslist(v):
@@ -682,7 +739,7 @@ def run_impl(case):
         qs = backend.convert(coll)
         fields = [str(f) for f in coll.rules[0].fields]      # the pipeline ran on the rule object of the collection
         ref = None
-        if case["t"]["kind"] in ("replace_id", "mapstr_id", "map_empty", "ph_id", "scope_none"):
+        if case["t"]["kind"] in IDENTITY_KINDS:
             coll2 = SigmaCollection.from_dicts([rule_dict(case)])
             ref = qsyntax.make_backend(CFG)().convert(coll2)
         return {"outcome": "ok", "queries": qs, "ref": ref, "fields": fields}
